@@ -65,6 +65,9 @@ def rule_bind(ctx):
             cands = [c.args[0]]
             if isinstance(c.args[0], ast.Name):
                 cands = [flow._def_value(d_, c.args[0].id) for d_ in flow.defs(c.args[0].id, c) if d_ != "param"]
+            def arms_of(e_):
+                return arms_of(e_.body) + arms_of(e_.orelse) if isinstance(e_, ast.IfExp) else [e_]
+            cands = [y for x in cands if x is not None for y in arms_of(x)]
             refs = [_method_ref(ctx, x) for x in cands if x is not None]
             for ref in refs:
               if ref is not None:
